@@ -53,6 +53,7 @@ type Options struct {
 	Disabled    map[string]map[string]bool // per loop key: auto-candidates (by description) dropped by Houdini
 	HeapKeys    map[string]string          // heap keys (with sorts) seen in a previous run: pre-registered so loop frame candidates cover them
 	ServiceLoops map[string]bool           // loop keys that are intentionally unbounded service loops (no variant obligation)
+	SeqCalls     bool                      // callers assume no other thread runs between a call and the callee's lock acquisition (locked(e) at call sites = pre-call state)
 }
 
 // lockHavoc records an owned field forgotten at a lock acquisition.
@@ -126,6 +127,7 @@ type funcVerifier struct {
 	entryBase   *heapBase
 	lockSnap    *State
 	lockHavocs  []lockHavoc
+	iterSnaps   []*State // loop-head states of the enclosing loops (for iteration clauses)
 	wildHavoc   bool // the whole heap was forgotten outside a loop head (un-contracted callee, undeclared lock)
 	inLoopHavoc bool
 	ghostTypes  map[string]types.Type
